@@ -240,8 +240,34 @@ def scenarios(rng, quick):
     return sc
 
 
+def nb(d):
+    """number of Monday-to-Friday days up to and including d (proleptic ordinal 1 is a Monday)"""
+    w, r = divmod(d.toordinal(), 7)
+    return w * 5 + min(r, 5)
+
+
+def from_nb(i):
+    """the business day with index i"""
+    w, r = divmod(i, 5)
+    if r == 0:
+        w, r = w - 1, 5
+    return datetime.date.fromordinal(w * 7 + r)
+
+
+def bizda_text(d):
+    first = d.replace(day=1)
+    return "%04d-%02d-%02db" % (d.year, d.month, nb(d) - nb(first - datetime.timedelta(days=1)))
+
+
 def decode(sc, line):
     try:
+        if sc["dec"] == "bizda":
+            y, m, k = int(line[0:4]), int(line[5:7]), int(line[8:10])
+            if not line.endswith("b") or len(line) != 11:
+                return -999999997
+            base = nb(datetime.date(y, m, 1) - datetime.timedelta(days=1))
+            d = from_nb(base + k)
+            return base + k if (d.year, d.month) == (y, m) and k >= 1 else -999999996
         if sc["dec"] == "date":
             return parsen(sc.get("nota", "ymd"), line)
         if sc["dec"] == "dtmon":
@@ -303,13 +329,38 @@ def main(tier):
             sc, lines, rc = one(dict(args=args))
             if lines is None:
                 rep.disagree("dseq endless: date unit between two times", {"cmd": "dseq " + " ".join(args), "why": rc})
-        rep.notes["tool_runs"] = len(scs) + 2
+        # business-day dates as bounds (YYYY-MM-DDb): a calendar-day step counts the business days among the days added, so in front of a
+        # weekend it does not move the value -- such a run may be refused or cut short but must end; business-day steps are exact
+        for args in (["2012-02-01b", "2012-02-10b"], ["2012-02-01b", "1d", "2012-02-10b"], ["2012-02-01b", "2d", "2012-03-10b"], ["2012-02-10b", "-1d", "2012-02-01b"],
+                     ["2012-02-01b", "1w", "2012-04-10b"], ["2012-02-01b", "1mo", "2013-02-10b"], ["2012-02-21b", "1y", "2016-02-21b"], ["2012-02-03b", "1d", "2012-02-03b"]):
+            sc, lines, rc = one(dict(args=args))
+            if lines is None:
+                rep.disagree("dseq endless: business-day dates with a step that stops moving", {"cmd": "dseq " + " ".join(args), "why": rc})
+        nbiz = 0
+        for i in range(12 if quick else 300):
+            f = datetime.date(rng.randrange(1700, 3900), rng.randrange(1, 13), rng.randrange(1, 29))
+            while f.isoweekday() > 5:
+                f += datetime.timedelta(days=1)
+            inc = rng.choice([1, 1, 2, 3, 5, 7, 22, -1, -2, -5])
+            steps = rng.randrange(0, 25)
+            fi = nb(f)
+            li = fi + inc * steps + rng.choice([0, 0, 1, -1]) * min(abs(inc) - 1, 2)
+            sc = dict(kind="lin", args=[bizda_text(f), "%db" % inc, bizda_text(from_nb(li))], first=fi, inc=inc, last=li, skip=[], cfl=False, wd0=1, dec="bizda")
+            sc, lines, rc = one(sc)
+            nbiz += 1
+            e = [{"e": "Start", "cmd": "dseq " + " ".join(sc["args"]), "kind": "lin", "first": fi, "inc": inc, "last": li, "skip": [], "cfl": False, "wd0": 1}]
+            if lines is None:
+                e.append({"e": "Timeout", "why": rc})
+            else:
+                e += [{"e": "Emit", "v": decode(sc, ln), "txt": ln} for ln in lines] + [{"e": "Stop", "rc": rc}]
+            execs.append(e)
+        rep.notes["tool_runs"] = len(scs) + 10 + nbiz
 
         def key(bad, ex):
             st = ex[0]
             cls = st["kind"]
             if st["kind"] == "lin":
-                cls = "datetime" if "T" in st["cmd"].split()[1] else "date"
+                cls = "datetime" if "T" in st["cmd"].split()[1] else "business-day date" if st["cmd"].split()[1].endswith("b") else "date"
                 if st["cfl"]:
                     cls += " compute-from-last"
                 if st["skip"]:
